@@ -155,6 +155,12 @@ type runCtx struct {
 	copies        atomic.Int32
 	stop          atomic.Bool
 	tmp           string
+	// backup mode
+	gate       *gate
+	inflight   atomic.Int32 // CopyTo calls in progress
+	maxFlight  atomic.Int32
+	copiesOK   atomic.Int32 // CopyTo calls that returned nil
+	syncRounds atomic.Int32 // rounds in which all copiers were released together
 }
 
 func (rc *runCtx) do(g int, log *[]opRec, kind string, fn func() error) {
@@ -195,6 +201,9 @@ func (c *child) runStress() {
 	nClosers := max(in.Closers, 1)
 	total := W + nClosers + 1
 	rc := &runCtx{c: c, cur: make([]atomic.Pointer[curOp], total), tmp: tmp}
+	if in.Mode == "backup" {
+		rc.gate = newGate(in.Copiers)
+	}
 	logs := make([][]opRec, total)
 
 	// hook events: record, delay, and (close-at mode) trigger Close
@@ -305,7 +314,12 @@ func (c *child) runStress() {
 		wg.Add(1)
 		go func(g int) {
 			defer wg.Done()
-			rc.worker(g, &logs[g], vrand.New(in.Seed+uint64(g)*7919))
+			r := vrand.New(in.Seed + uint64(g)*7919)
+			if in.Mode == "backup" {
+				rc.backupWorker(g, &logs[g], r)
+			} else {
+				rc.worker(g, &logs[g], r)
+			}
 		}(g)
 	}
 	// closers
@@ -370,7 +384,15 @@ func (c *child) runStress() {
 				c.out.Persists++
 			}
 		}
+		for _, ev := range rec.Events() {
+			if ev.Kind == "point" && ev.Name == "zap_remove" {
+				c.out.ZapRemoved++
+			}
+		}
 	}
+	c.out.CopiesOK = int(rc.copiesOK.Load())
+	c.out.SyncRounds = int(rc.syncRounds.Load())
+	c.out.MaxFlight = int(rc.maxFlight.Load())
 }
 
 // linearize projects the recorded events and repairs the one place where the recording order can
@@ -604,6 +626,139 @@ func (rc *runCtx) worker(g int, log *[]opRec, r *vrand.R) {
 			dst := filepath.Join(rc.tmp, fmt.Sprintf("c%d-%d", g, ver))
 			rc.do(g, log, kind, func() error { return idx.(bleve.IndexCopyable).CopyTo(bleve.FileSystemDirectory(dst)) })
 			os.RemoveAll(dst)
+		}
+	}
+}
+
+// ---------------------------------------------------------------- backup mode
+
+// gate releases its n parties together: the k-th arrival of a round opens it for all.  A party
+// that has waited for gateWait goes on alone (the others may have left after Close).
+type gate struct {
+	mu sync.Mutex
+	n  int
+	in int
+	ch chan struct{}
+}
+
+const gateWait = 40 * time.Millisecond
+
+func newGate(n int) *gate { return &gate{n: n, ch: make(chan struct{})} }
+
+// arrive reports whether the whole round was released together (full) and whether the caller was
+// the one that opened it (last).
+func (gt *gate) arrive() (full bool, last bool) {
+	gt.mu.Lock()
+	gt.in++
+	if gt.in >= gt.n {
+		close(gt.ch)
+		gt.ch = make(chan struct{})
+		gt.in = 0
+		gt.mu.Unlock()
+		return true, true
+	}
+	ch := gt.ch
+	gt.mu.Unlock()
+	t := time.NewTimer(gateWait)
+	defer t.Stop()
+	select {
+	case <-ch:
+		return true, false
+	case <-t.C:
+	}
+	gt.mu.Lock()
+	defer gt.mu.Unlock()
+	if gt.ch == ch { // the round is still open: leave it
+		gt.in--
+		return false, false
+	}
+	return true, false
+}
+
+// backupWorker: goroutines 0..Copiers-1 call CopyTo in a tight loop (every other call is started
+// together with the other copiers' through the gate), the next Writers goroutines produce small
+// segments (batches, single updates, deletions, forced merges) so that the merger and the purger
+// have work, the remaining ones read.  All go on for a few operations after Close has returned.
+func (rc *runCtx) backupWorker(g int, log *[]opRec, r *vrand.R) {
+	idx := rc.idx
+	in := rc.c.in
+	after := 0
+	start := time.Now()
+	ver := int64(1)
+	for it := 0; !rc.stop.Load(); it++ {
+		closed := rc.closeReturned.Load() != 0
+		if closed {
+			after++
+			if after > postCloseOps+g%3 {
+				return
+			}
+		}
+		if time.Since(start) > 30*time.Second {
+			return
+		}
+		id := r.Intn(48)
+		ver++
+		switch {
+		case g < in.Copiers:
+			if it%2 == 0 && !closed {
+				if full, last := rc.gate.arrive(); full && last {
+					rc.syncRounds.Add(1)
+				}
+			}
+			dst := filepath.Join(rc.tmp, fmt.Sprintf("b%d-%d", g, it))
+			rc.do(g, log, "copyto", func() error {
+				n := rc.inflight.Add(1)
+				for {
+					m := rc.maxFlight.Load()
+					if n <= m || rc.maxFlight.CompareAndSwap(m, n) {
+						break
+					}
+				}
+				err := idx.(bleve.IndexCopyable).CopyTo(bleve.FileSystemDirectory(dst))
+				rc.inflight.Add(-1)
+				if err == nil {
+					rc.copiesOK.Add(1)
+				}
+				return err
+			})
+			os.RemoveAll(dst)
+		case g < in.Copiers+in.Writers:
+			switch x := r.Intn(12); {
+			case x < 6:
+				rc.do(g, log, "batch", func() error {
+					b := idx.NewBatch()
+					for k := 0; k < 2+id%3; k++ {
+						if (id+k)%5 == 0 {
+							b.Delete(sw.DocName((id + k) % 48))
+						} else if err := b.Index(sw.DocName((id+k)%48), sw.DocFor(id+k, ver)); err != nil {
+							return err
+						}
+					}
+					b.SetInternal([]byte(sw.KeyName(g)), []byte(fmt.Sprint(ver)))
+					return idx.Batch(b)
+				})
+			case x < 9:
+				rc.do(g, log, "index", func() error { return idx.Index(sw.DocName(id), sw.DocFor(id, ver)) })
+			case x < 10:
+				rc.do(g, log, "delete", func() error { return idx.Delete(sw.DocName(id)) })
+			default:
+				rc.do(g, log, "forcemerge", func() error { sw.ForceMerge(idx); return nil })
+			}
+			if !closed {
+				time.Sleep(time.Duration(r.Intn(in.WriterNapUS+1)) * time.Microsecond)
+			}
+		default:
+			if it%2 == 0 {
+				rc.do(g, log, "search", func() error {
+					_, err := idx.Search(rc.request(id))
+					return err
+				})
+			} else {
+				rc.do(g, log, "doccount", func() error { _, err := idx.DocCount(); return err })
+			}
+			if !closed {
+				time.Sleep(time.Duration(r.Intn(2000)) * time.Microsecond)
+			}
 		}
 	}
 }
